@@ -65,16 +65,30 @@ def run(ctx: Ctx) -> int:
     distinct = set()
     hops_total = 0
     kinds_hist = {}
-    for si, (job, variant) in enumerate(ec.job_schedule(ctx, 60 if ctx.thorough else 16)):
+    schedule = ec.job_schedule(ctx, 60 if ctx.thorough else 16)
+    n_directed = 6 if ctx.thorough else 2
+    for si, (job, variant) in enumerate(schedule):
         if not budget.ok():
             break
         rng = ctx.rng
-        n = rng.choice([9, 11, 12, 19, 21, 23, 31]) if si % 2 == 0 else rng.randint(3, 26)
-        prev = simenv.random_plan(rng, job, variant, n)
-        if rng.random() < 0.6:      # an early console line, before the first retained checkpoint
-            prev.insert(rng.randint(0, min(6, len(prev))), '!debug "viewer(\'clock\')"')
-        hops, cur, kinds = [], prev, []
-        for _h in range(rng.choice([1, 2, 3])):
+        if si < n_directed:
+            # directed: the operation log the incremental run steps back to (history index 10, the last one with a retained
+            # checkpoint) is a CAST of a skill with a delay -- two play logs, use and elapse -- and the new plan continues right
+            # there with the command that reads the pending events of the LAST play (RESOLVE / KEYDOWNSTOP of that skill)
+            x = rng.choice(list(simenv.delay_skill_names(job, variant)))
+            filler = ["ELAPSE %s" % rng.choice([30, 100, 500]) for _ in range(9)]
+            prev = filler + ['CAST "%s"' % x, "ELAPSE 1000", "ELAPSE 7"]
+            tail = rng.choice([['RESOLVE "%s"' % x, "ELAPSE 100"], ['KEYDOWNSTOP "%s"' % x, 'RESOLVE "%s"' % x], ['RESOLVE "%s"' % x]])
+            hops, kinds = [filler + ['CAST "%s"' % x] + tail], [("directed-boundary-cast", 10)]
+            cur = hops[0]
+            kinds_hist["directed-boundary-cast"] = kinds_hist.get("directed-boundary-cast", 0) + 1
+        else:
+            n = rng.choice([9, 11, 12, 19, 21, 23, 31]) if si % 2 == 0 else rng.randint(3, 26)
+            prev = simenv.random_plan(rng, job, variant, n)
+            if rng.random() < 0.6:      # an early console line, before the first retained checkpoint
+                prev.insert(rng.randint(0, min(6, len(prev))), '!debug "viewer(\'clock\')"')
+            hops, cur, kinds = [], prev, []
+        for _h in range(rng.choice([1, 2, 3]) if si >= n_directed else 0):
             kind = rng.choice(KINDS)
             pos = rng.choice(positions(rng, len(cur)))
             cur = edit(rng, job, variant, cur, kind, pos)
